@@ -9,6 +9,7 @@ import (
 	"strings"
 	"sync"
 	"sync/atomic"
+	"time"
 
 	"github.com/mattn/anko/env"
 	"github.com/mattn/anko/vm"
@@ -436,6 +437,7 @@ func streamGoConv(o *Out, r *rand.Rand, n int, thorough bool) {
 			}
 			return canned[t]
 		}
+		started := make(chan struct{}, 8)
 		fn := reflect.MakeFunc(reflect.FuncOf(in, out, variadic), func(args []reflect.Value) []reflect.Value {
 			calls++
 			got = append([]reflect.Value{}, args...)
@@ -443,6 +445,7 @@ func streamGoConv(o *Out, r *rand.Rand, n int, thorough bool) {
 			for i := range out {
 				res[i] = resultOf(i)
 			}
+			started <- struct{}{}
 			return res
 		})
 		// arguments: the right number, or one more / one less
@@ -488,11 +491,25 @@ func streamGoConv(o *Out, r *rand.Rand, n int, thorough bool) {
 		if nin == 0 && !variadic {
 			continue // functions without parameters ignore their arguments (short circuit pinned by the vm tests)
 		}
+		// every fourth well-formed call is started with `go`: the same arguments must arrive (the call then has no result)
+		goMode := (nargs == nin || (variadic && nargs >= nin)) && r.Intn(4) == 0
+		if goMode {
+			script = "go " + script
+		}
 		e := env.NewEnv()
 		_ = e.DefineValue("f", fn)
 		res, err, p := execGuard(e, script)
+		if goMode && p == nil && err == nil {
+			select {
+			case <-started:
+			case <-time.After(3 * time.Second):
+				o.Sum.Evaluations++
+				o.Fail(Failure{Oracle: "exact-arguments", Key: "goconv-go-call-never-ran", Input: fmt.Sprintf("%s with f : %s", script, fn.Type()), Detail: "the Go function started with go was not called within 3 s"})
+				continue
+			}
+		}
 		o.Sum.Evaluations++
-		shape := fmt.Sprintf("shape:variadic=%v,spread=%v", variadic, spread)
+		shape := fmt.Sprintf("shape:variadic=%v,spread=%v,go=%v", variadic, spread, goMode)
 		o.Sum.Hist[shape]++
 		sig := fmt.Sprintf("%s with f : %s", script, fn.Type())
 		if p != nil {
@@ -536,6 +553,9 @@ func streamGoConv(o *Out, r *rand.Rand, n int, thorough bool) {
 		}
 		if strings.Join(gotArgs, " , ") != strings.Join(wantArgs, " , ") {
 			o.Fail(Failure{Oracle: "exact-arguments", Key: "goconv-args:" + shape, Input: sig, Detail: fmt.Sprintf("supplied arguments arrive as %v, the Go function received %v", wantArgs, gotArgs)})
+		}
+		if goMode {
+			continue // a go statement has no result
 		}
 		// results: none -> nil, one -> the value, several -> a list
 		var wantRes string
